@@ -68,6 +68,9 @@ func main() {
 		for _, n := range callerInventory(pkgs) {
 			fmt.Println("caller\t" + n)
 		}
+		for _, n := range typeInventory(pkgs) {
+			fmt.Println("type\t" + n)
+		}
 		return
 	}
 	if err == nil {
